@@ -1,369 +1,16 @@
-(* AI/SearchC.v (draft): Search.v plus cancellation — the flag flips during the k-th leaf evaluation, as the harness injects it.
-   AI/Search.v (draft): ai/minimax.go (pvSearch, zwSearch, ttGet/ttPut/teSuffices, recordCut, nullMoveOK, Analyze) and ai/moves.go *)
-From Coq Require Import NArith ZArith List Bool Lia.
+(* SearchC.v: cancellation.  The cancellation machinery (the flag that flips inside the k-th leaf evaluation of an Analyze call)
+   is part of the single engine model Search.v, so that the cancelled and the uninterrupted run are the same function applied to
+   two values of [cancel_at]; this file only names the entry points used by property C16. *)
+From Coq Require Import NArith ZArith List Bool.
 Require Import Board Move GameOver Eval.
+Require Export Search.
 Import ListNotations.
 Open Scope Z_scope.
 
-Definition MaxEval : Z := 2 ^ 30.
-Definition MinEval : Z := - MaxEval.
-Definition WinThreshold : Z := 2 ^ 29.
-Definition hashMul : N := 7046029254386353131.            (* 0x61C8864680B583EB *)
-Definition max_depth : nat := 15.
-
-Record entry := { e_hash : N; e_value : Z; e_m : rmove; e_bound : N; e_depth : Z }.      (* bound: 0 lower, 1 exact, 2 upper *)
-Definition entry0 := {| e_hash := 0; e_value := 0; e_m := {| mX := 0; mY := 0; mT := 0; mS := 0 |}; e_bound := 0; e_depth := 0 |}.
-Definition move0 : rmove := {| mX := 0; mY := 0; mT := 0; mS := 0 |}.
-
-Record config := {
-  c_depth : Z; c_nosort : bool; c_nonull : bool; c_noreduce : bool; c_multicut : bool;
-  c_eval : position -> Z }.
-
-Record stats := {
-  s_evaluated : Z; s_visited : Z; s_scout : Z; s_terminal : Z; s_tthits : Z; s_ttshortcut : Z; s_research : Z;
-  s_cutnodes : Z; s_cut0 : Z; s_cut1 : Z; s_cutsearch : Z; s_allnodes : Z; s_nullsearch : Z; s_nullcut : Z;
-  s_reduced : Z; s_mcsearch : Z; s_mccut : Z }.
-Definition stats0 := {| s_evaluated := 0; s_visited := 0; s_scout := 0; s_terminal := 0; s_tthits := 0; s_ttshortcut := 0; s_research := 0;
-  s_cutnodes := 0; s_cut0 := 0; s_cut1 := 0; s_cutsearch := 0; s_allnodes := 0; s_nullsearch := 0; s_nullcut := 0;
-  s_reduced := 0; s_mcsearch := 0; s_mccut := 0 |}.
-
-Record sstate := {
-  table : list entry;
-  history : list (rmove * Z);
-  response : list (rmove * rmove);
-  fpv : list (list rmove);          (* frame[ply].pv: 15 slots each *)
-  fm : list rmove;                  (* frame[ply].m *)
-  st : stats;
-  evals : Z;                        (* leaf evaluations since the start of this Analyze *)
-  cancel_at : Z }.                  (* 0 = never; k = the context is cancelled inside the k-th leaf evaluation *)
-Definition cancelled (s : sstate) : bool := (0 <? cancel_at s) && (cancel_at s <=? evals s).
-
-(* ---- small helpers ---- *)
-Definition rmove_eqb (a b : rmove) : bool := (mX a =? mX b) && (mY a =? mY b) && (mT a =? mT b)%N && (mS a =? mS b)%N.   (* struct equality *)
-Definition move_equal (a b : rmove) : bool :=                                                                   (* Move.Equal *)
-  (mX a =? mX b) && (mY a =? mY b) && (mT a =? mT b)%N && (if (5 <=? mT a)%N then (mS a =? mS b)%N else true).
-Fixpoint assoc {V} (k : rmove) (l : list (rmove * V)) : option V :=
-  match l with [] => None | (k', v) :: r => if rmove_eqb k k' then Some v else assoc k r end.
-Fixpoint assoc_set {V} (k : rmove) (v : V) (l : list (rmove * V)) : list (rmove * V) :=
-  match l with [] => [(k, v)] | (k', v') :: r => if rmove_eqb k k' then (k, v) :: r else (k', v') :: assoc_set k v r end.
-Fixpoint set_nth {A} (l : list A) (i : nat) (v : A) : list A :=
-  match l, i with [] , _ => [] | _ :: t, O => v :: t | h :: t, S j => h :: set_nth t j v end.
-Definition znth {A} (l : list A) (i : Z) (d : A) : A := nth (Z.to_nat i) l d.
-Definition set_prefix (arr l : list rmove) : list rmove := l ++ skipn (length l) arr.
-
-Definition upd_st (s : sstate) (f : stats -> stats) : sstate :=
-  {| table := table s; history := history s; response := response s; fpv := fpv s; fm := fm s; st := f (st s); evals := evals s; cancel_at := cancel_at s |}.
-Definition set_table (s : sstate) (t : list entry) : sstate :=
-  {| table := t; history := history s; response := response s; fpv := fpv s; fm := fm s; st := st s; evals := evals s; cancel_at := cancel_at s |}.
-Definition set_fpv (s : sstate) (ply : Z) (arr : list rmove) : sstate :=
-  {| table := table s; history := history s; response := response s; fpv := set_nth (fpv s) (Z.to_nat ply) arr; fm := fm s; st := st s; evals := evals s; cancel_at := cancel_at s |}.
-Definition set_fm (s : sstate) (ply : Z) (m : rmove) : sstate :=
-  {| table := table s; history := history s; response := response s; fpv := fpv s; fm := set_nth (fm s) (Z.to_nat ply) m; st := st s; evals := evals s; cancel_at := cancel_at s |}.
-
-Section Srch.
-Variable basis : list N.
-Variable cfg : config.
-
-Definition mvp := move_prealloc (hash_sq basis) false.
-Definition phash (p : position) : N := hash_of p.
-Definition is_over (p : position) : bool := match game_over p with Some (o, _) => o | None => false end.
-Definition pass_move (p : position) : position :=
-  {| size := size p; black_wins_ties := black_wins_ties p; whiteStones := whiteStones p; whiteCaps := whiteCaps p;
-     blackStones := blackStones p; blackCaps := blackCaps p; move := move p + 1; White := White p; Black := Black p;
-     Standing := Standing p; Caps := Caps p; Height := Height p; Stacks := Stacks p; hash := hash p |}.
-Definition try_move (p : position) (m : rmove) : option position :=
-  if (mT m =? 1)%N then Some (pass_move p) else match mvp p m with Ok q => Some q | _ => None end.
-
-(* ---- transposition table ---- *)
-Definition tt_slots (s : sstate) (h : N) : nat * nat :=
-  let n := N.of_nat (length (table s)) in
-  (N.to_nat (h mod n), N.to_nat (((h * hashMul) mod 2 ^ 64) mod n))%N.
-Definition tt_get (s : sstate) (h : N) : option nat :=
-  match table s with [] => None | _ =>
-    let '(i1, i2) := tt_slots s h in
-    if (e_hash (nth i1 (table s) entry0) =? h)%N then Some i1
-    else if (e_hash (nth i2 (table s) entry0) =? h)%N then Some i2 else None end.
-(* ttPut: moves slot i1 to i2 when occupied, returns slot i1 *)
-Definition tt_put (s : sstate) (h : N) : sstate * option nat :=
-  match table s with [] => (s, None) | _ =>
-    if cancelled s then (s, None) else
-    let '(i1, i2) := tt_slots s h in
-    let e1 := nth i1 (table s) entry0 in
-    let t := if negb (e_hash e1 =? 0)%N then set_nth (table s) i2 e1 else table s in
-    (set_table s t, Some i1) end.
-Definition te_suffices (te : entry) (depth a b : Z) : bool :=
-  ((depth <=? e_depth te) &&
-     ((e_bound te =? 1)%N || ((e_value te <? a) && (e_bound te =? 2)%N) || ((b <? e_value te) && (e_bound te =? 0)%N)))
-  || ((e_bound te =? 1)%N && ((WinThreshold <? e_value te) || (e_value te <? - WinThreshold))).
-
-(* ---- the move generator ---- *)
-Record mgen := { g_te : option nat; g_pv : list rmove; g_r : rmove; g_ms : option (list rmove); g_i : Z;
-                 g_ply : Z; g_depth : Z; g_p : position }.
-Definition set_i (g : mgen) (i : Z) := {| g_te := g_te g; g_pv := g_pv g; g_r := g_r g; g_ms := g_ms g; g_i := i; g_ply := g_ply g; g_depth := g_depth g; g_p := g_p g |}.
-
-Fixpoint insert_sorted (h : rmove * Z) (l : list (rmove * Z)) : list (rmove * Z) :=
-  match l with [] => [h] | x :: r => if snd x <? snd h then h :: l else x :: insert_sorted h r end.
-Definition sort_moves (s : sstate) (ms : list rmove) : list rmove :=     (* a stable stand-in for Go's unstable sort.Sort *)
-  map fst (fold_right insert_sorted [] (map (fun m => (m, match assoc m (history s) with Some v => v | None => 0 end)) ms)).
-
-Definition te_move (s : sstate) (g : mgen) : option rmove := option_map (fun i => e_m (nth i (table s) entry0)) (g_te g).
-
-Fixpoint mg_next (fuel : nat) (s : sstate) (g : mgen) : mgen * option (rmove * position) :=
-  match fuel with O => (g, None) | S f =>
-    let try (g : mgen) (m : rmove) := match try_move (g_p g) m with Some q => (g, Some (m, q)) | None => mg_next f s g end in
-    let i := g_i g in
-    if i =? 0 then
-      match te_move s g with Some m => try (set_i g 1) m | None => mg_next f s (set_i g 1) end
-    else if i =? 1 then
-      match g_pv g with
-      | m :: _ => match te_move s g with
-                  | Some tm => if move_equal m tm then mg_next f s (set_i g 2) else try (set_i g 2) m
-                  | None => try (set_i g 2) m end
-      | [] => mg_next f s (set_i g 2)
-      end
-    else if i =? 2 then
-      if g_ply g =? 0 then mg_next f s (set_i g 3) else
-      match assoc (znth (fm s) (g_ply g - 1) move0) (response s) with
-      | Some r => let g' := {| g_te := g_te g; g_pv := g_pv g; g_r := r; g_ms := g_ms g; g_i := 3; g_ply := g_ply g; g_depth := g_depth g; g_p := g_p g |} in
-                  try g' r
-      | None => mg_next f s {| g_te := g_te g; g_pv := g_pv g; g_r := move0; g_ms := g_ms g; g_i := 3; g_ply := g_ply g; g_depth := g_depth g; g_p := g_p g |}
-      end
-    else
-      (* case 3 (generate / sort) then the default case *)
-      let g := if i =? 3 then
-                 let ms := match g_ms g with Some ms => ms | None => all_moves (g_p g) end in
-                 let ms := if (1 <? g_depth g) && negb (c_nosort cfg) then sort_moves s ms else ms in
-                 {| g_te := g_te g; g_pv := g_pv g; g_r := g_r g; g_ms := Some ms; g_i := 4; g_ply := g_ply g; g_depth := g_depth g; g_p := g_p g |}
-               else g in
-      let j := g_i g - 4 in
-      let ms := match g_ms g with Some ms => ms | None => [] end in
-      let g := set_i g (g_i g + 1) in
-      if Z.of_nat (length ms) <=? j then (g, None) else
-      let m := znth ms j move0 in
-      if (match te_move s g with Some tm => move_equal tm m | None => false end) then mg_next f s g
-      else if (match g_pv g with pm :: _ => move_equal pm m | [] => false end) then mg_next f s g
-      else if move_equal (g_r g) m then mg_next f s g
-      else try g m
-  end.
-
-Definition record_cut (s : sstate) (m : rmove) (mvno depth ply : Z) : sstate :=
-  let s := upd_st s (fun t =>
-     {| s_evaluated := s_evaluated t; s_visited := s_visited t; s_scout := s_scout t; s_terminal := s_terminal t; s_tthits := s_tthits t;
-        s_ttshortcut := s_ttshortcut t; s_research := s_research t; s_cutnodes := s_cutnodes t + 1;
-        s_cut0 := if mvno =? 1 then s_cut0 t + 1 else s_cut0 t; s_cut1 := if mvno =? 2 then s_cut1 t + 1 else s_cut1 t;
-        s_cutsearch := if (mvno =? 1) || (mvno =? 2) then s_cutsearch t else s_cutsearch t + mvno + 1;
-        s_allnodes := s_allnodes t; s_nullsearch := s_nullsearch t; s_nullcut := s_nullcut t; s_reduced := s_reduced t;
-        s_mcsearch := s_mcsearch t; s_mccut := s_mccut t |}) in
-  let inc := if (0 <=? depth) && (depth <? 63) then 2 ^ depth else 0 in
-  let h := assoc_set m ((match assoc m (history s) with Some v => v | None => 0 end) + inc) (history s) in
-  let r := if 0 <? ply then assoc_set (znth (fm s) (ply - 1) move0) m (response s) else response s in
-  {| table := table s; history := h; response := r; fpv := fpv s; fm := fm s; st := st s; evals := evals s; cancel_at := cancel_at s |}.
-
-Definition bump (s : sstate) (f : stats -> stats) := upd_st s f.
-Definition st_eval (over : bool) (t : stats) : stats :=
-  {| s_evaluated := s_evaluated t + 1; s_visited := s_visited t; s_scout := s_scout t; s_terminal := if over then s_terminal t + 1 else s_terminal t;
-     s_tthits := s_tthits t; s_ttshortcut := s_ttshortcut t; s_research := s_research t; s_cutnodes := s_cutnodes t; s_cut0 := s_cut0 t;
-     s_cut1 := s_cut1 t; s_cutsearch := s_cutsearch t; s_allnodes := s_allnodes t; s_nullsearch := s_nullsearch t; s_nullcut := s_nullcut t;
-     s_reduced := s_reduced t; s_mcsearch := s_mcsearch t; s_mccut := s_mccut t |}.
-Definition st_add (dv ds dh dsh dr da dns dnc drd dms dmc : Z) (t : stats) : stats :=
-  {| s_evaluated := s_evaluated t; s_visited := s_visited t + dv; s_scout := s_scout t + ds; s_terminal := s_terminal t;
-     s_tthits := s_tthits t + dh; s_ttshortcut := s_ttshortcut t + dsh; s_research := s_research t + dr; s_cutnodes := s_cutnodes t; s_cut0 := s_cut0 t;
-     s_cut1 := s_cut1 t; s_cutsearch := s_cutsearch t; s_allnodes := s_allnodes t + da; s_nullsearch := s_nullsearch t + dns; s_nullcut := s_nullcut t + dnc;
-     s_reduced := s_reduced t + drd; s_mcsearch := s_mcsearch t + dms; s_mccut := s_mccut t + dmc |}.
-
-Definition null_move_ok (s : sstate) (ply depth : Z) (p : position) : bool :=
-  if c_nonull cfg then false else
-  if (ply =? 0) || (depth <? 3) then false else
-  if (mT (znth (fm s) (ply - 1) move0) =? 1)%N then false else
-  if (whiteStones p <? 3)%N || (blackStones p <? 3)%N then false else
-  if Z.of_nat (length (Stacks p)) <=? Z.of_N (popcount (N.lor (White p) (Black p))) + 3 then false else true.
-
-(* the table-shortcut prefix shared by both searches: Some result = return now *)
-Definition tt_probe (s : sstate) (p : position) (ply depth a b : Z) : sstate * option nat * option (list rmove * Z) :=
-  match tt_get s (phash p) with
-  | None => (s, None, None)
-  | Some i =>
-    let s := bump s (st_add 0 0 1 0 0 0 0 0 0 0 0) in
-    let te := nth i (table s) entry0 in
-    if te_suffices te depth a b then
-      match try_move p (e_m te) with
-      | Some _ => let s := bump s (st_add 0 0 0 1 0 0 0 0 0 0 0) in
-                  let arr := set_prefix (znth (fpv s) ply []) [e_m te] in
-                  (set_fpv s ply arr, None, Some ([e_m te], e_value te))
-      | None => (s, None, None)
-      end
-    else (s, Some i, None)
-  end.
-
-Definition write_entry (s : sstate) (i : nat) (h : N) (depth : Z) (m : rmove) (v : Z) (bound : N) : sstate :=
-  set_table s (set_nth (table s) i {| e_hash := h; e_value := v; e_m := m; e_bound := bound; e_depth := wrap8 depth |}).
-
-(* zw = true: zero-window search (β ignored, cut flag used); zw = false: pvSearch *)
-Fixpoint srch (fuel : nat) (zw : bool) (s : sstate) (p : position) (ply depth : Z) (pv : list rmove) (a b : Z) (cut : bool)
-  : sstate * (list rmove * Z) :=
-  match fuel with O => (s, ([], 0)) | S f =>
-  let over := is_over p in
-  if (depth <=? 0) || over then
-    (let s := bump s (st_eval over) in
-     {| table := table s; history := history s; response := response s; fpv := fpv s; fm := fm s; st := st s;
-        evals := evals s + 1; cancel_at := cancel_at s |}, ([], c_eval cfg p)) else
-  let s := bump s (st_add 1 (if zw then 1 else if b =? a + 1 then 1 else 0) 0 0 0 0 0 0 0 0 0) in
-  let '(s, te, ret) := tt_probe s p ply depth a (if zw then a + 1 else b) in
-  match ret with Some r => (s, r) | None =>
-  if zw then
-    (* ---- zwSearch ---- *)
-    let null_result : sstate * option (list rmove * Z) :=
-      if null_move_ok s ply depth p then
-        let s := set_fm s ply {| mX := 0; mY := 0; mT := 1; mS := 0 |} in
-        let s := bump s (st_add 0 0 0 0 0 0 1 0 0 0 0) in
-        let '(s, (_, v)) := srch f true s (pass_move p) (ply + 1) (depth - 3) [] (- a - 1) 0 true in
-        if a + 1 <=? - v then (bump s (st_add 0 0 0 0 0 0 0 1 0 0 0), Some ([], - v)) else (s, None)
-      else (s, None) in
-    let '(s, nr) := null_result in
-    match nr with Some r => (s, r) | None =>
-    let '(s, depth) :=
-      if negb (c_noreduce cfg) && (0 <? ply) then
-        let m := znth (fm s) (ply - 1) move0 in
-        if (5 <=? mT m)%N && (15 <? mS m)%N then
-          let sz := wrap8 (Z.of_N (size p)) in
-          let i := wrap8 (mX m + wrap8 (mY m * sz)) in
-          let l := Z.of_nat (length (nibbles 8 (mS m))) in
-          let '(dx, dy) := if (mT m =? 5)%N then (wrap8 (mX m - l), mY m) else if (mT m =? 6)%N then (wrap8 (mX m + l), mY m)
-                           else if (mT m =? 7)%N then (mX m, wrap8 (mY m + l)) else (mX m, wrap8 (mY m - l)) in
-          let j := wrap8 (dx + wrap8 (dy * sz)) in
-          if (nthN (Height p) (Z.to_N i) =? 0)%N && (Z.of_N (nthN (Height p) (Z.to_N j)) =? Z.of_N (N.land (mS m) 15))
-          then (bump s (st_add 0 0 0 0 0 0 0 0 1 0 0), depth - 2) else (s, depth)
-        else (s, depth)
-      else (s, depth) in
-    let g0 := {| g_te := te; g_pv := pv; g_r := move0; g_ms := None; g_i := 0; g_ply := ply; g_depth := depth; g_p := p |} in
-    (* multi-cut *)
-    let mc : sstate * mgen * bool :=
-      if c_multicut cfg && cut && (3 <? depth) then
-        let s := bump s (st_add 0 0 0 0 0 0 0 0 0 1 0) in
-        let '(g1, first) := mg_next 700 s g0 in
-        match first with
-        | None => (s, g1, false)
-        | Some (m, child0) =>
-          (fix mcl (k : nat) (s : sstate) (g : mgen) (child : position) (i cuts : Z) : sstate * mgen * bool :=
-             match k with O => (s, g, false) | S k' =>
-               if 6 <=? i then (s, g, false) else
-               let s := set_fm s ply m in
-               let '(s, (_, v)) := srch f true s child (ply + 1) (depth - 1 - 2) [] (- a - 1) 0 (negb cut) in
-               let cuts := if a <? - v then cuts + 1 else cuts in
-               if (a <? - v) && (3 <=? cuts) then (bump s (st_add 0 0 0 0 0 0 0 0 0 0 1), g, true) else
-               let '(g', nx) := mg_next 700 s g in
-               match nx with Some (_, c') => mcl k' s g' c' (i + 1) cuts | None => (s, g', false) end
-             end) 8%nat s g1 child0 0 0
-        end
-      else (s, g0, false) in
-    let '(s, g, mccut) := mc in
-    if mccut then (s, ([], a + 1)) else
-    let g := set_i g 0 in
-    let arr0 := znth (fpv s) ply [] in
-    let best0 := firstn 1 arr0 in
-    let '(s, best, didcut) :=
-      (fix loop (k : nat) (s : sstate) (g : mgen) (i : Z) (best : list rmove) : sstate * list rmove * bool :=
-         match k with O => (s, best, false) | S k' =>
-           let '(g, nx) := mg_next 700 s g in
-           match nx with
-           | None => (s, best, false)
-           | Some (m, child) =>
-             let i := i + 1 in
-             let s := set_fm s ply m in
-             let '(s, (ms, v)) := srch f true s child (ply + 1) (depth - 1) (tl best) (- a - 1) 0 (negb cut) in
-             if a <? - v then
-               let s := record_cut s m i depth ply in
-               let best := m :: ms in
-               (set_fpv s ply (set_prefix (znth (fpv s) ply []) best), best, true)
-             else if cancelled s then (s, [], false) else loop k' s g i best
-           end
-         end) 700%nat s g 0 best0 in
-    if negb didcut && cancelled s && match best with [] => true | _ => false end then (s, ([], 0)) else
-    let '(s, slot) := tt_put s (phash p) in
-    let s := match slot with
-             | Some i => let s := write_entry s i (phash p) depth (hd move0 best) a (if didcut then 0%N else 2%N) in
-                         if didcut then s else bump s (st_add 0 0 0 0 0 1 0 0 0 0 0)
-             | None => s end in
-    (s, (best, if didcut then a + 1 else a))
-    end
-  else
-    (* ---- pvSearch ---- *)
-    let g0 := {| g_te := te; g_pv := pv; g_r := move0; g_ms := None; g_i := 0; g_ply := ply; g_depth := depth; g_p := p |} in
-    let arr0 := znth (fpv s) ply [] in
-    let best0 := match pv with [] => firstn 1 arr0 | _ => pv end in
-    let s := set_fpv s ply (set_prefix arr0 best0) in
-    let '(s, best, a', improved) :=
-      (fix loop (k : nat) (s : sstate) (g : mgen) (i : Z) (best : list rmove) (a : Z) (improved : bool) : sstate * list rmove * Z * bool :=
-         match k with O => (s, best, a, improved) | S k' =>
-           let '(g, nx) := mg_next 700 s g in
-           match nx with
-           | None => (s, best, a, improved)
-           | Some (m, child) =>
-             let i := i + 1 in
-             let s := set_fm s ply m in
-             let '(s, (ms, v)) :=
-               if 1 <? i then
-                 let '(s, (ms, v)) := srch f true s child (ply + 1) (depth - 1) (tl best) (- a - 1) 0 true in
-                 if (a <? - v) && (- v <? b) then srch f false (bump s (st_add 0 0 0 0 1 0 0 0 0 0 0)) child (ply + 1) (depth - 1) (tl best) (- b) (- a) true
-                 else (s, (ms, v))
-               else srch f false s child (ply + 1) (depth - 1) (tl best) (- b) (- a) true in
-             let v := - v in
-             if a <? v then
-               let best := m :: ms in
-               let s := set_fpv s ply (set_prefix (znth (fpv s) ply []) best) in
-               if b <=? v then (record_cut s m i depth ply, best, v, true)
-               else if cancelled s then (s, [], 0, false) else loop k' s g i best v true
-             else if cancelled s then (s, [], 0, false) else loop k' s g i best a improved
-           end
-         end) 700%nat s g0 0 best0 a false in
-    if cancelled s && match best with [] => true | _ => false end then (s, ([], 0)) else
-    let h := phash p in
-    let '(s, slot) := tt_put s h in
-    let s := match slot with
-             | Some i =>
-               let te1 := nth i (table s) entry0 in
-               if negb (e_hash te1 =? h)%N || (e_depth te1 <=? depth) then
-                 let s := write_entry s i h depth (hd move0 best) a' (if negb improved then 2%N else if b <=? a' then 0%N else 1%N) in
-                 if negb improved then bump s (st_add 0 0 0 0 0 1 0 0 0 0 0) else s
-               else s
-             | None => s end in
-    (s, (best, a'))
-  end
-  end.
-
-(* Analyze: iterative deepening (no deadline, no MaxEvals, never cancelled) *)
-Definition st_merge (a b : stats) : stats :=
-  {| s_evaluated := s_evaluated a + s_evaluated b; s_visited := s_visited a + s_visited b; s_scout := s_scout a + s_scout b;
-     s_terminal := s_terminal a + s_terminal b; s_tthits := s_tthits a + s_tthits b; s_ttshortcut := s_ttshortcut a + s_ttshortcut b;
-     s_research := s_research a + s_research b; s_cutnodes := s_cutnodes a + s_cutnodes b; s_cut0 := s_cut0 a + s_cut0 b;
-     s_cut1 := s_cut1 a + s_cut1 b; s_cutsearch := s_cutsearch a + s_cutsearch b; s_allnodes := s_allnodes a + s_allnodes b;
-     s_nullsearch := s_nullsearch a + s_nullsearch b; s_nullcut := s_nullcut a + s_nullcut b; s_reduced := s_reduced a + s_reduced b;
-     s_mcsearch := s_mcsearch a + s_mcsearch b; s_mccut := s_mccut a + s_mccut b |}.
-
-Definition analyze_search (s0 : sstate) (p : position) : sstate * (list rmove * Z * Z * stats * bool) :=
-  let s0 := {| table := table s0; history := map (fun kv => (fst kv, Z.quot (snd kv) 2)) (history s0); response := response s0;
-               fpv := fpv s0; fm := fm s0; st := st s0; evals := 0; cancel_at := cancel_at s0 |} in
-  let '(base, ms0) := match tt_get s0 (phash p) with
-                      | Some i => let te := nth i (table s0) entry0 in if (e_bound te =? 1)%N then (e_depth te, [e_m te]) else (0, [])
-                      | None => (0, []) end in
-  (fix iter (k : nat) (i : Z) (s : sstate) (ms : list rmove) (v : Z) (acc : stats) (d : Z) : sstate * (list rmove * Z * Z * stats * bool) :=
-     match k with O => (s, (ms, v, d, acc, false)) | S k' =>
-       if c_depth cfg <? i + base then (s, (ms, v, d, acc, false)) else
-       let s := {| table := table s; history := history s; response := response s; fpv := fpv s; fm := fm s; st := stats0; evals := evals s; cancel_at := cancel_at s |} in
-       let '(s, (next, nv)) := srch 40 false s p 0 (i + base) ms (MinEval - 1) (MaxEval + 1) true in
-       match (if cancelled s then [] else next) with
-       | [] => (s, (ms, v, d, acc, true))
-       | _ =>
-         let acc := st_merge (st s) acc in
-         if (WinThreshold <? nv) || (nv <? - WinThreshold) then (s, (next, nv, i + base, acc, false))
-         else iter k' (i + 1) s next nv acc (i + base)
-       end
-     end) 16%nat 1 s0 ms0 0 stats0 base.
-
-Definition with_cancel (s : sstate) (k : Z) : sstate :=
-  {| table := table s; history := history s; response := response s; fpv := fpv s; fm := fm s; st := st s; evals := 0; cancel_at := k |}.
-
-Definition new_state (table_entries : nat) : sstate :=
-  {| table := repeat entry0 table_entries; history := []; response := []; fpv := repeat (repeat move0 max_depth) max_depth;
-     fm := repeat move0 max_depth; st := stats0; evals := 0; cancel_at := 0 |}.
-End Srch.
+(* result projections of an Analyze call: (pv, value, Stats.Depth, Stats, Stats.Canceled) *)
+Definition r_pv (r : list rmove * Z * Z * stats * bool) : list rmove := let '(pv, _, _, _, _) := r in pv.
+Definition r_value (r : list rmove * Z * Z * stats * bool) : Z := let '(_, v, _, _, _) := r in v.
+Definition r_depth (r : list rmove * Z * Z * stats * bool) : Z := let '(_, _, d, _, _) := r in d.
+Definition r_canceled (r : list rmove * Z * Z * stats * bool) : bool := let '(_, _, _, _, c) := r in c.
+Definition with_depth (cfg : config) (d : Z) : config :=
+  {| c_depth := d; c_nosort := c_nosort cfg; c_nonull := c_nonull cfg; c_noreduce := c_noreduce cfg; c_multicut := c_multicut cfg; c_eval := c_eval cfg |}.
